@@ -39,11 +39,11 @@ def inside(r, x, y):
 
 class Gen(object):
     def __init__(self, rng, style=None, rel=True, inch=True, arcs_=True, at=True, ext=True, addregions=True,
-                 g92e=True, zmoves=True, g90e=None, scripts=True, junk=False, layers=None, g92xyz=False):
+                 g92e=True, zmoves=True, g90e=None, scripts=True, junk=False, layers=None, g92xyz=False, rel_e=False):
         self.rng = rng
         self.style = style if style is not None else rng.choice(['eonly', 'eonly', 'firmware', 'none'])
         self.o = dict(rel=rel, inch=inch, arcs=arcs_, at=at, ext=ext, addregions=addregions, g92e=g92e,
-                      zmoves=zmoves, scripts=scripts, junk=junk, g92xyz=g92xyz)
+                      zmoves=zmoves, scripts=scripts, junk=junk, g92xyz=g92xyz, rel_e=rel_e)
         self.g90e = rng.random() < 0.5 if g90e is None else g90e
         self.layers = layers or rng.randint(1, 3)
 
@@ -121,7 +121,7 @@ class Gen(object):
             self.emit('G92 E0')
         elif r < 0.23 and o['inch'] and not self.retracted:
             self.emit('G20' if self.U.um == 1 else 'G21')
-        elif r < 0.26 and o['rel'] and not (self.g90e and self.style == 'eonly'):
+        elif r < 0.26 and o['rel'] and (o['rel_e'] or not self.g90e):
             self.emit('G91' if self.U.absm else 'G90')
         elif r < 0.28 and o['addregions']:
             self.events.append(('add', None))     # placeholder, placed later
@@ -154,7 +154,7 @@ class Gen(object):
         if rng.random() < 0.75:
             parts += ['I' + fmt((cx - U.x) / U.um, nd), 'J' + fmt((cy - U.y) / U.um, nd)]
         else:
-            parts += ['R' + fmt(F('%.3f' % r0) / U.um * rng.choice([1, 1, -1]), nd)]
+            parts += ['R' + fmt((F('%.3f' % r0) + F(1, 100)) / U.um * rng.choice([1, 1, -1]), nd)]
         de = F('%.5f' % (abs(sweep) * r0 * 0.04))
         if not self.retracted:
             parts.append('E' + fmt((self.U.e + de) / U.um, 6 if U.um != 1 else 5))
